@@ -263,7 +263,7 @@ func (r *vc08Run) exec(op *vc08Op, rng *rand.Rand) {
 	}()
 	select {
 	case <-done:
-	case <-time.After(30 * time.Second):
+	case <-time.After(90 * time.Second):
 		if op.Cs == nil {
 			op.Cs = []uint32{}
 		}
@@ -271,7 +271,7 @@ func (r *vc08Run) exec(op *vc08Op, rng *rand.Rand) {
 		r.ops.Write(b)
 		r.ops.WriteByte('\n')
 		r.impl.WriteString("hang:" + op.Op + "\n")
-		r.orc.WriteString("FAIL:operation-did-not-terminate:" + op.Op + " did not return within 30s\n")
+		r.orc.WriteString("FAIL:operation-did-not-terminate:" + op.Op + " did not return within 90s\n")
 		r.ops.Flush()
 		r.impl.Flush()
 		r.orc.Flush()
